@@ -113,7 +113,7 @@ def scenario(exe, shim, root, seed, stats):
             p = a.path(d, rel)
             oldsize = os.path.getsize(p)
             st = os.lstat(p)
-            how = rng.choice(['append', 'touch', 'edit'])
+            how = rng.choice(['append', 'touch', 'edit', 'edit-samesec'])
             edit_idx = None
             if how == 'append':
                 # the recorded extent of the file keeps its bytes (scrub reads the recorded size only)
@@ -124,7 +124,13 @@ def scenario(exe, shim, root, seed, stats):
                 off = rng.below(oldsize); edit_idx = off // a.block
                 with open(p, 'r+b') as f:
                     f.seek(off); c = f.read(1); f.seek(off); f.write(bytes([c[0] ^ 0x44]))
-                os.utime(p, ns=(st.st_atime_ns, st.st_mtime_ns + 5_000_000_003))
+                if how == 'edit-samesec':
+                    # rewritten within the second of the recorded time-stamp, the new stamp has NO sub-second part
+                    # (a tool with one-second resolution): still a changed file
+                    os.utime(p, ns=(st.st_atime_ns, (st.st_mtime_ns // 10**9) * 10**9))
+                    stats['samesec_edits'] = stats.get('samesec_edits', 0) + 1
+                else:
+                    os.utime(p, ns=(st.st_atime_ns, st.st_mtime_ns + 5_000_000_003))
             ufile = (d, os.fsencode(rel))
             for b in lay.blocks:
                 if b['disk'] == d and os.fsdecode(b['sub']) == rel:
@@ -296,7 +302,7 @@ def main(tier, seed):
             chk.violation('C15 static obligation failed: ' + o[0], o[0] + '\n' + o[2], False, 'static')
     chk.evaluations = stats['scrubs']
     chk.distinct = stats['selected']
-    chk.rule = ('%d arrays x 4 scrubs: per-stripe last-check times drawn from 1-6 distinct ages within 60 days (+ never-scrubbed marks), optional silent damage and a file changed since the last sync; plans full/new/bad/percentage (1..100 with -o 0..70 days)/default; the binary`s count_limit/time_limit/last_limit tags and the info of EVERY stripe after the scrub (Lean-decoded) must equal the Lean model: selected and verified -> (now, no marks); selected with silent error -> bad, time kept; unselected -> unchanged; unsynced differences never marked' % n)
+    chk.rule = ('%d arrays x 4 scrubs: per-stripe last-check times drawn from 1-6 distinct ages within 60 days (+ never-scrubbed marks), optional silent damage and a file changed since the last sync; plans full/new/bad/percentage (1..100 with -o 0..70 days)/default; the binary`s count_limit/time_limit/last_limit tags and the info of EVERY stripe after the scrub (Lean-decoded) must equal the Lean model: selected and verified -> (now, no marks); selected with silent error -> bad, time kept; unselected -> unchanged; unsynced differences never marked; changed-since-sync files incl. same-second rewrites whose new stamp has no sub-second part; one directed scrub that crosses an autosave point (8 MiB blocks, autosave 1) with a silent error after it' % n)
     chk.samples = [dict(stats)]
     chk.corr['PLAN'] = dict(stats)
     chk.finish()
